@@ -139,47 +139,171 @@ theorem groupClassName_fresh (members : List (String × NA)) (cn : String) (cl :
     groupClassName members cn cl = cn := by
   simp [groupClassName, alookup_none_of_not_mem cn cl h]
 
-/-- _makeMarkClassDefinitions when the class names of the groups are pairwise different -/
-theorem makeClasses_closed (me : AList) (ns : List String) (K : String → String)
-    (hcn : (ns.map (fun n => sanitize ("MC" ++ n))).Nodup) (hK : (ns.map K).Nodup)
+/-! ### fresh class names -/
+
+theorem nodup_map_of_injOn' {α β} {f : α → β} {l : List α} (hn : l.Nodup)
+    (hinj : ∀ x ∈ l, ∀ y ∈ l, f x = f y → x = y) : (l.map f).Nodup := by
+  induction l with
+  | nil => simp
+  | cons a l ih =>
+    simp only [nodup_cons] at hn
+    simp only [map_cons, nodup_cons]
+    refine ⟨?_, ih hn.2 (fun x hx y hy => hinj x (by simp [hx]) y (by simp [hy]))⟩
+    intro hmem
+    obtain ⟨b, hb, hfb⟩ := mem_map.mp hmem
+    have := hinj b (by simp [hb]) a (by simp) hfb
+    subst this; exact hn.1 hb
+
+theorem digitsToNat_append_single (l : List Char) (c : Char) :
+    digitsToNat (l ++ [c]) = 10 * digitsToNat l + (c.toNat - 48) := by
+  simp [digitsToNat, foldl_append]
+
+/-- reading back the decimal digits of a number gives the number -/
+theorem digitsToNat_toDigits (n : Nat) : digitsToNat (Nat.toDigits 10 n) = n := by
+  induction n using Nat.strongRecOn with
+  | _ n ih =>
+    by_cases h : n < 10
+    · rw [Nat.toDigits_of_lt_base h]
+      simp [digitsToNat, Nat.toNat_digitChar_sub_48_of_lt_ten h]
+    · have hle : 10 ≤ n := by omega
+      rw [Nat.toDigits_of_base_le (by decide) hle, digitsToNat_append_single, ih (n / 10) (by omega),
+        Nat.toNat_digitChar_sub_48_of_lt_ten (Nat.mod_lt _ (by decide))]
+      omega
+
+theorem toString_nat_inj {a b : Nat} (h : toString a = toString b) : a = b := by
+  have h' : (toString a).toList = (toString b).toList := by rw [h]
+  rw [Nat.toString_eq_repr, Nat.toString_eq_repr, Nat.toList_repr, Nat.toList_repr] at h'
+  rw [← digitsToNat_toDigits a, ← digitsToNat_toDigits b, h']
+
+theorem length_le_of_nodup_subset {l m : List String} (hn : l.Nodup) (hs : ∀ x ∈ l, x ∈ m) : l.length ≤ m.length := by
+  induction l generalizing m with
+  | nil => simp
+  | cons x l ih =>
+    simp only [nodup_cons] at hn
+    have hx : x ∈ m := hs x (by simp)
+    have := ih hn.2 (m := m.erase x) (fun y hy => by
+      have hne : y ≠ x := fun e => hn.1 (e ▸ hy)
+      exact (mem_erase_of_ne hne).mpr (hs y (by simp [hy])))
+    rw [length_erase_of_mem hx] at this
+    have hpos : 0 < m.length := length_pos_of_mem hx
+    simp only [length_cons]; omega
+
+/-- the candidate names of the `while name in existing` loop -/
+def candName (orig : String) (j : Nat) : String := orig ++ "_" ++ toString j
+
+theorem candName_inj {orig : String} {j j' : Nat} (h : candName orig j = candName orig j') : j = j' := by
+  unfold candName at h
+  exact toString_nat_inj ((String.append_right_inj _).mp h)
+
+theorem uniqueName_spec (orig : String) (cl : Classes) (f i : Nat) :
+    (∀ e ∈ cl, e.1 ≠ uniqueName orig cl f i) ∨ ∀ j, i ≤ j → j < i + f → ∃ e ∈ cl, e.1 = candName orig j := by
+  induction f generalizing i with
+  | zero => right; intro j h1 h2; omega
+  | succ f ih =>
+    simp only [uniqueName]
+    split
+    · rename_i hin
+      obtain ⟨e, he, hee⟩ := any_eq_true.mp hin
+      rcases ih (i + 1) with h | h
+      · exact Or.inl h
+      · right
+        intro j h1 h2
+        by_cases hj : j = i
+        · subst hj; exact ⟨e, he, by simpa [candName] using hee⟩
+        · exact h j (by omega) (by omega)
+    · rename_i hin
+      left
+      intro e he heq
+      exact hin (any_eq_true.mpr ⟨e, he, by simp [heq]⟩)
+
+/-- the loop finds a free name -/
+theorem uniqueName_fresh (orig : String) (cl : Classes) : ∀ e ∈ cl, e.1 ≠ uniqueName orig cl (cl.length + 1) 1 := by
+  rcases uniqueName_spec orig cl (cl.length + 1) 1 with h | h
+  · exact h
+  · exfalso
+    have hn : ((List.range (cl.length + 1)).map (fun j => candName orig (j + 1))).Nodup := by
+      apply nodup_map_of_injOn' nodup_range
+      intro x _ y _ hxy
+      have := candName_inj hxy; omega
+    have hs : ∀ x ∈ (List.range (cl.length + 1)).map (fun j => candName orig (j + 1)), x ∈ cl.map (·.1) := by
+      intro x hx
+      obtain ⟨j, hj, rfl⟩ := mem_map.mp hx
+      obtain ⟨e, he, hee⟩ := h (j + 1) (by omega) (by have := mem_range.mp hj; omega)
+      exact mem_map.mpr ⟨e, he, hee⟩
+    have := length_le_of_nodup_subset hn hs
+    simp only [length_map, length_range] at this
+    omega
+
+theorem freshName_fresh_or (cn : String) (cl : Classes) : ∀ e ∈ cl, e.1 ≠ freshName cn cl := by
+  unfold freshName
+  split
+  · exact uniqueName_fresh cn cl
+  · rename_i h
+    intro e he heq
+    exact h (any_eq_true.mpr ⟨e, he, by simp [heq]⟩)
+
+/-- the classes and the key map made of a list of (group name, class name) pairs -/
+def classesOfAsg (me : AList) (asg : List (String × String)) : Classes :=
+  asg.map (fun p => (p.2, (groupOf me p.1).map recOf))
+def kmOfAsg (K : String → String) (asg : List (String × String)) : List (String × String) :=
+  asg.map (fun p => (K p.1, p.2))
+
+/-- _makeMarkClassDefinitions without hand-written classes: every group gets a class of its own, under a name that no
+    other group has -/
+theorem makeClasses_closed (me : AList) (ns : List String) (K : String → String) (hK : (ns.map K).Nodup)
     (hgrp : ∀ n ∈ ns, groupOf me n ≠ [] ∧ ((groupOf me n).map (·.1)).Nodup ∧ ∀ gm ∈ groupOf me n, gm.2.key = K n) :
-    ns.foldl (fun st n =>
-      (defineGroup (groupOf me n) (groupClassName (groupOf me n) (sanitize ("MC" ++ n)) st.classes) st).1) ⟨[], []⟩ =
-      ⟨ns.map (fun n => (sanitize ("MC" ++ n), (groupOf me n).map recOf)), ns.map (fun n => (K n, sanitize ("MC" ++ n)))⟩ := by
-  have gen : ∀ (rest done : List String), ((done ++ rest).map (fun n => sanitize ("MC" ++ n))).Nodup →
-      ((done ++ rest).map K).Nodup →
+    ∃ asg : List (String × String), asg.map (·.1) = ns ∧ (asg.map (·.2)).Nodup ∧
+      ns.foldl (groupStep me) (⟨[], []⟩, []) = (⟨classesOfAsg me asg, kmOfAsg K asg⟩, asg.map (·.2)) := by
+  have gen : ∀ (rest : List String) (done : List (String × String)), (done.map (·.2)).Nodup →
+      ((done.map (·.1) ++ rest).map K).Nodup →
       (∀ n ∈ rest, groupOf me n ≠ [] ∧ ((groupOf me n).map (·.1)).Nodup ∧ ∀ gm ∈ groupOf me n, gm.2.key = K n) →
-      rest.foldl (fun st n =>
-        (defineGroup (groupOf me n) (groupClassName (groupOf me n) (sanitize ("MC" ++ n)) st.classes) st).1)
-        ⟨done.map (fun n => (sanitize ("MC" ++ n), (groupOf me n).map recOf)), done.map (fun n => (K n, sanitize ("MC" ++ n)))⟩ =
-      ⟨(done ++ rest).map (fun n => (sanitize ("MC" ++ n), (groupOf me n).map recOf)),
-       (done ++ rest).map (fun n => (K n, sanitize ("MC" ++ n)))⟩ := by
+      ∃ asg : List (String × String), asg.map (·.1) = done.map (·.1) ++ rest ∧ (asg.map (·.2)).Nodup ∧
+        rest.foldl (groupStep me) (⟨classesOfAsg me done, kmOfAsg K done⟩, done.map (·.2)) =
+          (⟨classesOfAsg me asg, kmOfAsg K asg⟩, asg.map (·.2)) := by
     intro rest
     induction rest with
-    | nil => intro done _ _ _; simp
+    | nil => intro done h1 _ _; exact ⟨done, by simp, h1, rfl⟩
     | cons n rest ih =>
       intro done h1 h2 h3
-      simp only [foldl_cons]
       obtain ⟨g1, g2, g3⟩ := h3 n (by simp)
-      have hfresh1 : ∀ e ∈ done.map (fun n => (sanitize ("MC" ++ n), (groupOf me n).map recOf)), e.1 ≠ sanitize ("MC" ++ n) := by
-        intro e he
-        obtain ⟨n', hn', rfl⟩ := mem_map.mp he
-        simp only [map_append, map_cons] at h1
-        intro e'
-        have hd := (nodup_append.mp h1).2.2 _ (mem_map.mpr ⟨n', hn', rfl⟩) (sanitize ("MC" ++ n)) (by simp)
-        exact hd e'
-      have hfresh2 : ∀ e ∈ done.map (fun n => (K n, sanitize ("MC" ++ n))), e.1 ≠ K n := by
-        intro e he
-        obtain ⟨n', hn', rfl⟩ := mem_map.mp he
-        simp only [map_append, map_cons] at h2
-        intro e'
-        have hd := (nodup_append.mp h2).2.2 _ (mem_map.mpr ⟨n', hn', rfl⟩) (K n) (by simp)
-        exact hd e'
-      rw [groupClassName_fresh _ _ _ hfresh1,
-        defineGroup_fresh (groupOf me n) (sanitize ("MC" ++ n)) (K n) _ g1 hfresh1 hfresh2 g2 g3]
-      have := ih (done ++ [n]) (by simpa using h1) (by simpa using h2) (fun n' hn' => h3 n' (by simp [hn']))
-      simpa using this
-  have := gen ns [] (by simpa using hcn) (by simpa using hK) hgrp
-  simpa using this
+      -- the class name of this group
+      generalize hcn : (if (done.map (·.2)).contains (sanitize ("MC" ++ n))
+        then freshName (sanitize ("MC" ++ n)) (classesOfAsg me done) else sanitize ("MC" ++ n)) = cn
+      have hnames : (classesOfAsg me done).map (·.1) = done.map (·.2) := by simp [classesOfAsg]
+      have hfresh : cn ∉ done.map (·.2) := by
+        rw [← hcn]
+        split
+        · intro hm
+          rw [← hnames] at hm
+          obtain ⟨e, he, hee⟩ := mem_map.mp hm
+          exact freshName_fresh_or _ _ e he hee
+        · rename_i hc; simpa using hc
+      have hfresh1 : ∀ e ∈ classesOfAsg me done, e.1 ≠ cn := by
+        intro e he heq
+        exact hfresh (by rw [← hnames]; exact mem_map.mpr ⟨e, he, heq⟩)
+      have hfresh2 : ∀ e ∈ kmOfAsg K done, e.1 ≠ K n := by
+        intro e he heq
+        obtain ⟨p, hp, rfl⟩ := mem_map.mp he
+        simp only [map_append, map_cons, map_map] at h2
+        have hd := (nodup_append.mp h2).2.2 (K p.1) (mem_map.mpr ⟨p, hp, rfl⟩) (K n) (by simp)
+        exact hd heq
+      have hstep : groupStep me (⟨classesOfAsg me done, kmOfAsg K done⟩, done.map (·.2)) n =
+          (⟨classesOfAsg me (done ++ [(n, cn)]), kmOfAsg K (done ++ [(n, cn)])⟩, (done ++ [(n, cn)]).map (·.2)) := by
+        unfold groupStep
+        simp only [hcn]
+        rw [groupClassName_fresh _ _ _ hfresh1, defineGroup_fresh (groupOf me n) cn (K n) _ g1 hfresh1 hfresh2 g2 g3]
+        simp [classesOfAsg, kmOfAsg]
+      simp only [foldl_cons, hstep]
+      obtain ⟨asg, a1, a2, a3⟩ := ih (done ++ [(n, cn)])
+        (by
+          rw [map_append, nodup_append]
+          refine ⟨h1, by simp, ?_⟩
+          intro a ha b hb
+          simp only [map_cons, map_nil, mem_singleton] at hb
+          subst hb; intro e; subst e; exact hfresh ha)
+        (by simpa using h2) (fun n' hn' => h3 n' (by simp [hn']))
+      exact ⟨asg, by rw [a1]; simp, a2, a3⟩
+  obtain ⟨asg, a1, a2, a3⟩ := gen ns [] (by simp) (by simpa using hK) hgrp
+  exact ⟨asg, by simpa using a1, a2, by simpa [classesOfAsg, kmOfAsg] using a3⟩
 
 end Ufo2ft.C06
